@@ -174,13 +174,17 @@ async def server_history(chk: Check, rng: random.Random, sid: int, n: int, nev: 
         elif [q for q in live if all(q is not c[0] for c in closing)] and x < 0.55:
             p = rng.choice([q for q in live if all(q is not c[0] for c in closing)])
             live.remove(p)
-            if rng.random() < 0.5:
+            how = rng.choice(["quit", "eof", "reset"])
+            if how == "quit":
                 await p.cmd(b"\x01")
+            elif how == "reset":
+                p.t.reset_by_peer()         # the connection is lost with an error (TCP RST), not closed in an orderly way
+                await settle(10)
             await p.finish()
             await settle(10)
             lines.append(f"ctl rm {p.greeting['cid']}")
             impl.append("ok")
-            chk.count("srv:depart")
+            chk.count("srv:depart-" + how)
         elif False:
             p = live.pop(rng.randrange(len(live)))
             if rng.random() < 0.5:
